@@ -43,6 +43,7 @@ package mdns
 //@   ensures [C16] L5-prefix: prefixof(result.deviceBrand, deviceBrand) && prefixof(result.deviceModel, deviceModel) && prefixof(result.deviceType, deviceType) && prefixof(result.deviceSerial, deviceSerial)
 //@   ensures [C16] L6-identity: result.ski == ski && result.identifier == shipIdentifier && result.port == port && result.serviceName == serviceName
 //@   ensures result.entries != nil
+//@   establishes result
 //@ func parseTxt(txt) [C08,C16]
 //@   ensures result != nil
 //@ func (m *MdnsManager).copyMdnsEntries() [C08]
